@@ -224,7 +224,7 @@ theorem dec_cls (env : Env) : ∀ f : Nat,
                       cases res3 with
                       | error er => exact Cls.of_plain (by simpa using hp3)
                       | ok u =>
-                        obtain ⟨rfl, _, _⟩ := checkLength_ok hc3
+                        obtain ⟨rfl, _, _⟩ := checkLength_ok_inv hc3
                         have s1 := mul_step (env.width + 3) _ _ hlt
                         have s2 := mul_step (env.width + 3) _ _ hlt2
                         exact ihE e _ _ r3 (by omega)
@@ -327,7 +327,7 @@ theorem dec_cls (env : Env) : ∀ f : Nat,
                     cases res3 with
                     | error er => exact Cls.of_plain (by simpa using hp3)
                     | ok u =>
-                      obtain ⟨rfl, _, _⟩ := checkLength_ok hc3
+                      obtain ⟨rfl, _, _⟩ := checkLength_ok_inv hc3
                       exact ihP k v len [] r3 (by omega)
       | struct name =>
         rw [Total.decVar_struct]
